@@ -1,5 +1,6 @@
 import Irismod.Props.C14
-open Irismod Irismod.Nft Irismod.Spec.C14 Irismod.Props.C14
+import Irismod.Proofs.NftMonitor
+open Irismod Irismod.Nft Irismod.Spec.C14 Irismod.Props.C14 Irismod.Proofs.NftMonitor
 #print axioms inv_init
 #print axioms inv_step
 #print axioms inv_run
@@ -26,6 +27,14 @@ open Irismod Irismod.Nft Irismod.Spec.C14 Irismod.Props.C14
 #print axioms update_restricted_stable
 #print axioms update_restricted_run
 #print axioms burn_then_remint
+-- monitor soundness: every clause `monitor C14` evaluates holds on every model step
+#print axioms invFail_sound
+#print axioms opFail_sound
+#print axioms globalFail_sound
+#print axioms no_panic
+#print axioms monitor_sound
+#print axioms pure_sound
+#print axioms monitor_sound_reachable
 
 -- non-vacuity: `demo` is a reachable state with a mint- and update-restricted class handed over from
 -- A0 to A3, a live token tok1 owned by A2 (minted to A1, transferred) and a burnt token tok2. It
@@ -49,3 +58,5 @@ def dnm := doNotModify
   && stepOk (obsOf demo) (.transfer "A2" "A0" "cla" "tok1" dnm dnm dnm dnm) true
        (obsOf (apply demo (.transfer "A2" "A0" "cla" "tok1" dnm dnm dnm dnm)))
   && burnVB "A2" "cla" "tok1" && mintVB "A3" "A1" "cla" "tok1" "" (dataOkPlain "7b7d")}"
+-- the monitor functions of the driver evaluated on the demo state: an accepted burn, a rejected burn, a pure case
+#eval s!"nonvacuous monitor {(stepFails (obsOf demo) (.burn "A2" "cla" "tok1") (accepted demo (.burn "A2" "cla" "tok1")) (panicked demo (.burn "A2" "cla" "tok1")) (obsOf (apply demo (.burn "A2" "cla" "tok1")))).isEmpty && accepted demo (.burn "A2" "cla" "tok1") && !accepted demo (.burn "A0" "cla" "tok1") && (stepFails (obsOf demo) (.burn "A0" "cla" "tok1") false false (obsOf demo)).isEmpty && (pureFails (obsOf demo) (obsOf demo)).isEmpty && !(stepFails (obsOf demo) (.burn "A0" "cla" "tok1") true false (obsOf (apply demo (.burn "A2" "cla" "tok1")))).isEmpty}"
